@@ -203,7 +203,8 @@ def fold_constant_conditions(tree):
     """N11: `a if True else b` -> `a`;  `if True: A else: B` -> A  (constant tests, typically left by inlining a helper called with a literal flag)"""
     n = [0]
     if not any((isinstance(x, (ast.IfExp, ast.If)) and isinstance(x.test, ast.Constant)) or
-               (isinstance(x, ast.UnaryOp) and isinstance(x.op, ast.Not) and isinstance(x.operand, ast.Constant)) for x in ast.walk(tree)):
+               (isinstance(x, ast.UnaryOp) and isinstance(x.op, ast.Not) and isinstance(x.operand, ast.Constant)) or
+               (isinstance(x, ast.Compare) and isinstance(x.left, ast.Constant) and len(x.ops) == 1 and isinstance(x.comparators[0], ast.Constant)) for x in ast.walk(tree)):
         return 0
 
     class E(ast.NodeTransformer):
@@ -218,6 +219,19 @@ def fold_constant_conditions(tree):
             self.generic_visit(node)
             if isinstance(node.op, ast.Not) and isinstance(node.operand, ast.Constant) and isinstance(node.operand.value, bool):
                 return ast.copy_location(ast.Constant(value=not node.operand.value), node)
+            return node
+
+        def visit_Compare(self, node):
+            self.generic_visit(node)
+            # `'overflow' is not None`, `None is not None` (a literal substituted for a parameter)
+            if len(node.ops) == 1 and isinstance(node.left, ast.Constant) and isinstance(node.comparators[0], ast.Constant):
+                a, b, op = node.left.value, node.comparators[0].value, node.ops[0]
+                if isinstance(op, (ast.Is, ast.IsNot)) and (a is None or b is None):
+                    n[0] += 1
+                    return ast.copy_location(ast.Constant(value=((a is None) == (b is None)) == isinstance(op, ast.Is)), node)
+                if isinstance(op, (ast.Eq, ast.NotEq)) and type(a) is type(b):
+                    n[0] += 1
+                    return ast.copy_location(ast.Constant(value=(a == b) == isinstance(op, ast.Eq)), node)
             return node
     E().visit(tree)
 
